@@ -3922,12 +3922,15 @@ def _row_operands(expr):
 
 def _rows_root(expr):
     # Follow length preserving operations down to the expression that determines
-    # the rows
+    # the rows (operands that all lead to the same expression have its rows)
     while expr._is_length_preserving:
-        frames = _row_operands(expr)
-        if len(frames) != 1:
+        roots = {}
+        for frame in _row_operands(expr):
+            root = _rows_root(frame)
+            roots[root._name] = root
+        if len(roots) != 1:
             break
-        expr = frames[0]
+        (expr,) = roots.values()
     return expr
 
 
